@@ -1,7 +1,7 @@
 (* Single entry point val -> val for every modelled function; used by the extracted
    runner and by the generated in-Coq case files. *)
 From Coq Require Import ZArith List Bool.
-From Gabi Require Import Val ModArith Bytes Der Sha256 HashTool GoSem ParamsDef ZkProof Keys RangeProof NonRev Core.
+From Gabi Require Import Val ModArith Bytes Der Sha256 HashTool GoSem ParamsDef ZkProof Keys RangeProof NonRev Core CL.
 Import ListNotations.
 Open Scope Z_scope.
 
@@ -103,6 +103,36 @@ Definition d_proofS_verify (v : val) : val := ret (
   | _ => None
   end).
 
+Definition d_cl_verify (v : val) : val := ret (
+  match v with
+  | VL [pk; sg; ms; isp] =>
+    do pk <- as_pk pk; do sg <- as_sig sg; do ms <- as_LZ ms; do isp <- as_bool isp;
+    Some (of_obool (cl_verify pk (fun _ => isp) sg ms))
+  | _ => None
+  end).
+
+Definition d_cl_sign (v : val) : val := ret (
+  match v with
+  | VL [pk; ord; u; ms; vv; e] =>
+    do pk <- as_pk pk; do ord <- as_Z ord; do u <- as_Z u; do ms <- as_LZ ms; do vv <- as_Z vv; do e <- as_Z e;
+    Some (of_outcome of_sig (cl_sign pk ord u ms vv e))
+  | _ => None
+  end).
+
+Definition d_cl_randomize (v : val) : val := ret (
+  match v with
+  | VL [pk; sg; rs] =>
+    do pk <- as_pk pk; do sg <- as_sig sg; do rs <- as_LZ rs;
+    Some (of_outcome of_sig (cl_randomize_list pk sg rs))
+  | _ => None
+  end).
+
+Definition d_represent (v : val) : val := ret (
+  match v with
+  | VL [pk; ms] => do pk <- as_pk pk; do ms <- as_LZ ms; Some (of_outcome VZ (represent_to_pk pk ms))
+  | _ => None
+  end).
+
 Definition dispatch (fn : Z) (v : val) : val :=
   match fn with
   | 1501 => d_hash_commit v
@@ -116,6 +146,10 @@ Definition dispatch (fn : Z) (v : val) : val :=
   | 103 => d_prooflist_verify v
   | 104 => d_proofU_verify v
   | 105 => d_proofS_verify v
+  | 501 => d_cl_verify v
+  | 502 => d_cl_sign v
+  | 503 => d_cl_randomize v
+  | 504 => d_represent v
   | _ => bad_input
   end.
 
